@@ -35,6 +35,8 @@ import GdVerif.Run.Jc2mFaults
 import GdVerif.Run.Small
 import GdVerif.Run.FfowFaults
 import GdVerif.Run.MindustryFaults
+import GdVerif.Run.Http
+import GdVerif.Run.GenHttp
 /-
   gdmodel: the model behind a line protocol.
     gdmodel run        : reads `<id> <entry> <args…>` lines on stdin, prints `<id> <outcome>`
@@ -74,7 +76,8 @@ def allEntries : List (String × (List String → String)) := List.flatten [
   gs1Entries,
   gs1FaultEntries,
   gs2Entries,
-  gs2FaultEntries
+  gs2FaultEntries,
+  httpEntries
   ]
 
 def runLine (line : String) : String :=
@@ -112,7 +115,7 @@ def main (args : List String) : IO UInt32 := do
         | "gs3" => genGs3 seed n
         | "jc2m" => genJc2m seed n
         | "master" => genMaster seed n
-        | s => (smallGen s seed n).getD []
+        | s => ((smallGen s seed n).orElse fun _ => httpGen s seed n).getD []
       for l in lines do IO.println l
       return 0
     | _, _ => return 2
